@@ -23,11 +23,7 @@ TRUSTED = [
     "monotone clock: a message delivered after the scan started is younger than the cutoff",
 ]
 ASSUMPTIONS = ["message ages are at least 2 s away from the retention cutoff in every generated case"]
-NOT_PROVED = [
-    "expired_gone_unless_aborted_stmt (Proofs/Retention.v): under interleaving with clients that only deliver mail younger than the "
-    "cutoff, a scan that runs to completion leaves no message that was expired when it started — checked by the racing "
-    "correspondence stream (oracle 'expired-survived') only; the undisturbed case is scan_exact",
-]
+NOT_PROVED = []
 EXEC_TIMEOUT = {"quick": 900, "thorough": 7200}
 
 
